@@ -159,6 +159,13 @@ func evalNameArray(node *jparse.NameNode, data reflect.Value, env *environment) 
 			return undefined, err
 		}
 
+		// A nested array yields a sequence of its own. Add its
+		// items, not the sequence object, to the results.
+		if seq, ok := asSequence(v); ok {
+			results.values = append(results.values, seq.values...)
+			continue
+		}
+
 		if v.IsValid() && v.CanInterface() {
 			results.Append(v.Interface())
 		}
